@@ -3,13 +3,14 @@
    rendered through escape; an HTML tokenizer's unescape reads the rendered bytes back to the
    original text (unescape (escape d) = d for every byte string), and the rendered bytes contain
    none of the characters less-than, greater-than, double quote, apostrophe, CR, so no input text can open or close markup; nothing else is emitted for it.
-   Proved for whole documents, for every policy that keeps no comments and allows no raw-text
+   Proved for whole documents, for every policy without AllowUnsafe that allows no raw-text
    element and every input without script, style and skip-content tags: the text the tokenizer
    reads from the output bytes is the text it reads from the input, with exactly one blank for
    every removed tag under AddSpaceWhenStrippingTag (C06_output_text) and no difference at all
    otherwise (C06_output_text_equal).
-   Missing: policies that keep comments (comments carry no text, but the round-trip theorem does
-   not cover them yet); carried by the text-equality oracle on every generated case. *)
+   Policies that keep comments are covered (a comment contributes no text).
+   Missing: policies that allow raw-text elements; carried by the text-equality oracle on every
+   generated case. *)
 From Coq Require Import List NArith Bool.
 Import ListNotations.
 From BM Require Import Bytes Escape Tokenizer Policy Loop LoopInv LoopProps EscapeProofs MiscProofs SanRoundTrip TokenLevel.
